@@ -65,6 +65,12 @@ def autodecoder_obligations(eng):
     T = table(eng); N = len(T); install_decoders(eng, T)
     obls = []
     isn = z3.Bool("prev_none"); pv = z3.Int("prev")
+    def b_isinstance(e, st, args, kw, ctx, node):
+        v, cl = args
+        if v is None: return [(st, False)]
+        if isinstance(v, tuple) and v and v[0] == "amsg": return [(st, bool(v[2]) and cl == ("pyattr", "han.dlde.DataReadout"))]
+        return None
+    eng.py_calls["builtins.isinstance"] = b_isinstance
     F = "_AutoDecoder__previous_success"
     PREVS = [None] + list(range(N))      # the class invariant (None or 0 <= index < N), enumerated
     def mk(st, prev="sym"):
@@ -105,11 +111,6 @@ def autodecoder_obligations(eng):
         if isinstance(base, tuple) and base and base[0] == "amsg" and attr == "payload": return [(st, base[1])]
         return None
     eng.getattr_hook = getattr_hook
-    def b_isinstance(e, st, args, kw, ctx, node):
-        v, cl = args
-        if isinstance(v, tuple) and v and v[0] == "amsg": return [(st, bool(v[2]) and cl == ("pyattr", "han.dlde.DataReadout"))]
-        return None
-    eng.py_calls["builtins.isinstance"] = b_isinstance
     for shape, payload_of, is_readout in (("payload None", lambda: None, False), ("payload empty", lambda: SBytes(z3.Const("payload", BYTE_ARR), 0), False),
                                           ("frame or DLMS message", lambda: "nonempty", False), ("P1 readout", lambda: "nonempty", True)):
         def init_dm(e, payload_of=payload_of, is_readout=is_readout, shape=shape):
